@@ -112,6 +112,16 @@ pub fn run(args: &Args) -> i32 {
             actors: vec![(3, Op::Merge { ids: vec![2, 6, 11], salt: 7, insert: true, retries: None })],
             strategy: StratSpec::ActorOrder(vec![1]),
         },
+        // race: key index, delete wins, partial-schema merge_insert naming deleted keys is re-executed
+        "retry_mi_after_delete" => HistorySpec {
+            name: "probe-retry-mi-after-delete".into(), stable_row_ids: stable, v2_manifest_paths: false, frags: 3, rows_per_frag: 6,
+            pre_ops: vec![Op::CreateIndex { col: "id", name: "idx".into() }],
+            actors: vec![
+                (2, Op::Delete { pred: IdPred::In(vec![0, 1]), retries: None }),
+                (2, if args.extra.contains_key("full") { Op::Merge { ids: vec![0, 1, 5], salt: 99, insert: false, retries: None } } else { Op::MergeCol { ids: vec![0, 1, 5], col: "v", salt: 99, retries: None } }),
+            ],
+            strategy: StratSpec::ActorOrder(vec![1, 2]),
+        },
         _ => {
             eprintln!("unknown probe");
             return 2;
